@@ -8,17 +8,18 @@ PROPERTY = 'C26'
 PROPS = ['SalsaVerif.Props.C26']
 EXPLANATION = ('Model `Persist` (Lean) = the S2 engine as compiled with `persistence` (every read records an edge) + `snapshot` (memos of '
                'persisted functions kept, edges flattened through non-persisted functions as `collect_minimum_serialized_edges` does, '
-               'revisions and inputs kept) + `restore` (fresh database holding the snapshot). Proved for every `pers`: a serialized memo '
-               'mentions only inputs and persisted functions; a persisted memo verified in the snapshot\'s revision (or passing the '
-               'durability shortcut) is answered on the restored database without `WillExecute` (`c26_no_exec_when_unchanged`, '
-               '`c26_no_exec_when_durable`). Proved for snapshots that need no flattening (`NoFlat` / statically `Closed`, theorems '
-               '`_partial`): the restored database satisfies the engine invariant, every request returns the from-scratch value, also '
-               'after ANY further history of writes / synthetic writes / further snapshots (`c26_sound_partial`); with every function '
-               'persisted this is the full property (`c26_sound_all_persisted`). Flattening itself is NOT proved sound; it is tied to '
-               'salsa by this run: `vh persist` does a serde_json round trip into a fresh database in the middle of generated histories '
-               '(even nodes persisted, odd nodes not), values AND X/V event sequences after the restore are compared line by line with '
-               '`svdriver persist`; the oracle (independent reference interpreter + restore monitor "no WillExecute for a persisted '
-               'function verified in the snapshot\'s revision") checks the property itself.')
+               'revisions and inputs kept) + `restore` (fresh database holding the snapshot). PROVED for ARBITRARY sets of persisted '
+               'functions, snapshots taken in ANY reachable state (stale persisted memos included), any durabilities, any number of '
+               'snapshots in a history: every request on a restored database returns the from-scratch value, also after any further '
+               'history of writes / synthetic writes / snapshots (`c26_sound`, `c26_sound_history`, `c26_after_history`, '
+               '`c26_same_results`, `c26_restore_inv`; semantic invariant `J` with a ghost input history replaces the S2 replay clause, '
+               'which is false after flattening); a serialized memo mentions only inputs and persisted functions; a persisted memo '
+               'verified in the snapshot\'s revision (or passing the durability shortcut) is answered on the restored database without '
+               '`WillExecute` (`c26_no_exec_when_unchanged`, `c26_no_exec_when_durable`); the flattened edges of a memo still cut every '
+               'evaluation path (`c26_flatten_cut`). Tied to salsa by this run: `vh persist` does a serde_json round trip into a fresh '
+               'database in the middle of generated histories (even nodes persisted, odd nodes not), values AND X/V event sequences '
+               'after the restore are compared line by line with `svdriver persist`; the oracle (independent reference interpreter + '
+               'restore monitor "no WillExecute for a persisted function verified in the snapshot\'s revision") checks the property itself.')
 ASSUMPTIONS = ['bodies are deterministic', 'serde / serde_json are trusted', 'accumulators, tracked structs, interned values and cycles are outside this '
                'fragment (salsa does not serialize accumulators)', 'single thread', 'the fresh database has the same type (same ingredient indices)']
 TRUSTED_EXTRA = ['serde_json round trip inside the harness (the serialized text is not inspected)']
@@ -110,14 +111,14 @@ def run_persist(ctx, cases, seed_offset=0, tag='persist', with_model=True):
 
 
 def ties(ctx):
-    n = 1500 if ctx.tier == 'quick' else 100000
+    n = 8000 if ctx.tier == 'quick' else 100000
     return [run_persist(ctx, n)]
 
 
 def search(ctx, reason):
     t = run_persist(ctx, 100000, seed_offset=77, tag='search', with_model=False)
     for f in t.failures:
-        if f.kind == 'oracle':
+        if f.kind == 'oracle' and f.key not in listed_keys():
             return f
     return None
 
